@@ -45,7 +45,7 @@ def gen_cases(seed, n):
     skipped = 0
     while len(cases) < n:
         depth = r.choice([1, 2, 2, 3, 3, 4, 5, 6])
-        e = g.tree(depth)
+        e = g.whole(depth)
         e0 = X.strip_par(e)
         if e0[0] in ("var", "text") and (e0[0] == "text" or X.to_number(e0[2]) is X.NOVALUE):
             continue  # a lone non-numeric variable: documented only for case=, covered by C02
